@@ -111,6 +111,12 @@ StepSig(what, pre, post, u, usage, resp, trig) ==
   ToString(<<what, resp.status, trig, NRecs(post, u) - NRecs(pre, u), NSess(pre, u),
              [i \in 1..Len(usage) |-> EntrySig(pre, post, u, usage[i], IF "mui" \in DOMAIN resp THEN resp.mui ELSE <<>>, trig)]>>)
 
+\* kind of session reference a request names, seen from the requesting subscriber
+RefKind(t) ==
+  IF t.s \notin Dom(labels) THEN "noref"
+  ELSE (IF labels[t.s].u = t.u THEN "own" ELSE "foreign") \o (IF labels[t.s].live THEN "-live" ELSE "-stale")
+       \o (IF t.u \in Dom(st.ue) THEN "" ELSE "-unknownsub")
+
 \* ---- steps ----
 DoCreate ==
   /\ Cardinality(Dom(labels)) < MaxSess
@@ -170,7 +176,7 @@ DoUpdate ==
                       \cup (IF r.resp.status >= 400 /\ r.st # pre THEN {"C12.rejection_no_effect"} ELSE {})
           /\ nid' = nid + CountC(tpl, 1)
           /\ hist' = Append(hist, [a |-> "update", u |-> t.u, s |-> t.s, usage |-> tpl, trig |-> TrigSeq(tg),
-                                   sig |-> StepSig("update", pre, r.st, t.u, us, r.resp, TrigSeq(tg))])
+                                   sig |-> StepSig("update:" \o RefKind(t), pre, r.st, t.u, us, r.resp, TrigSeq(tg))])
           /\ UNCHANGED labels
 
 DoRelease ==
@@ -192,7 +198,7 @@ DoRelease ==
                               THEN {"C12.rejection_no_effect"} ELSE {})
           /\ nid' = nid + CountC(tpl, 1)
           /\ hist' = Append(hist, [a |-> "release", u |-> t.u, s |-> t.s, usage |-> tpl, trig |-> TrigSeq(tg),
-                                   sig |-> StepSig("release", pre, r.st, t.u, us, r.resp, TrigSeq(tg))])
+                                   sig |-> StepSig("release:" \o RefKind(t), pre, r.st, t.u, us, r.resp, TrigSeq(tg))])
           /\ labels' = IF r.resp.status = ok /\ t.s \in Dom(labels) /\ labels[t.s].u = t.u
                           THEN [labels EXCEPT ![t.s].live = FALSE] ELSE labels
 
